@@ -63,8 +63,10 @@ func (w *World) verdict(op string, at time.Time, token, res, chosen string) stri
 		f := a.crs[i]
 		ver := false
 		switch p.Ty {
-		case "jwk", "oidc", "k8ssa":
+		case "jwk", "oidc", "k8ssa", "gcp", "azure":
 			ver = f.sig
+		case "aws":
+			ver = f.sig && f.chain
 		case "x5c":
 			ver = f.sig && f.chain && f.dig
 		case "sshpop", "nebula":
@@ -127,6 +129,22 @@ func (w *World) verdict(op string, at time.Time, token, res, chosen string) stri
 			l = auds.SSHRevoke
 		}
 		if !matchesAudience(cl.Audience, l) {
+			return fmt.Sprintf("accept-wrongaudience type=%s op=%s", who.Ty, op)
+		}
+	case "gcp", "aws":
+		want := map[string]string{"gcp": "https://accounts.google.com", "aws": "ec2.amazonaws.com"}[who.Ty]
+		if cl.Issuer != want {
+			return fmt.Sprintf("accept-wrongissuer type=%s op=%s", who.Ty, op)
+		}
+		// the cloud provisioners address tokens to the sign URLs (which the ssh-sign list shares)
+		if op != "sign" && op != "sshsign" {
+			return fmt.Sprintf("accept-wrongaudience type=%s op=%s", who.Ty, op)
+		}
+		if !matchesAudience(cl.Audience, (&config.Config{DNSNames: w.hosts}).GetAudiences().WithFragment(who.tokenID()).Sign) {
+			return fmt.Sprintf("accept-wrongaudience type=%s op=%s", who.Ty, op)
+		}
+	case "azure":
+		if cl.Issuer != who.Issuer || !cl.Audience.Contains(who.cloud.audience) {
 			return fmt.Sprintf("accept-wrongaudience type=%s op=%s", who.Ty, op)
 		}
 	case "oidc":
